@@ -518,8 +518,8 @@ class Folder:
             for i_, a in enumerate(e["args"]):
                 before = len(items)
                 self._expr_stmt(strip(a, casts=True), items)
-                if len(items) > before and items[-1].kind in ("SUB", "SUBF") and not items[-1].des:
-                    items[-1].des = des_of(("tuple_elem", i_))        # the i-th element of the object being built
+                if len(items) > before and items[-1].kind == "SUB" and not items[-1].des:
+                    items[-1].des = des_of(("tuple_elem", i_))        # the i-th element of the object being built (as on the encode side)
             return
         if k in ("CXXConstructExpr", "CXXTemporaryObjectExpr") and self.kind == "decode" and not e.get("listinit") and \
                 sum(1 for a in (e.get("args") or []) if any(is_codec_call(x) for x in walk(a))) > 1:
